@@ -232,6 +232,34 @@ func one(cx *lib.Ctx, r *lib.Rand, tree *lib.Node, sc *Scope, sample bool) {
 	}
 	if status == "ok" && mval != r0.val {
 		res.Fail(lib.Failure{Kind: "corr", Key: "EVAL:value", Desc: "values differ", Input: input, Model: mval, Impl: r0.val})
+		return
+	}
+	// EVALSRC: the same comparison with the model fed from the generator's tree instead of the parsed tree, so
+	// that what the parser makes of the source (template directives, unwrapping, literal keys, legacy index) is
+	// part of what is compared
+	nsx, okn := NodeModelSexp(tree)
+	if !okn {
+		res.Count("evalsrc-unsupported-node")
+		return
+	}
+	if nsx == sx {
+		res.Count("evalsrc-same-tree")
+		return
+	}
+	res.Count("evalsrc-different-tree")
+	ans2 := cx.Ask("EVAL " + nsx + " " + EnvSexp(sc.Vars))
+	mval2, mstatus2 := splitDump(ans2)
+	if mstatus2 != "ok" && mstatus2 != "err" {
+		res.Count("evalsrc-model-" + mstatus2)
+		return
+	}
+	res.CorrChecked++
+	if mstatus2 != status {
+		res.Fail(lib.Failure{Kind: "corr", Key: "EVALSRC:status:spec-" + mstatus2 + "-impl-" + status, Desc: "the source evaluates with a different error/no-error outcome than the specification's reading of it", Input: input, Model: ans2 + "\n" + nsx, Impl: r0.val + "\n" + sx})
+		return
+	}
+	if status == "ok" && mval2 != r0.val {
+		res.Fail(lib.Failure{Kind: "corr", Key: "EVALSRC:value", Desc: "the source evaluates to a different value than the specification's reading of it", Input: input, Model: mval2 + "\n" + nsx, Impl: r0.val + "\n" + sx})
 	}
 }
 
